@@ -155,6 +155,20 @@ Proof. exact cast_64_to_256. Qed.
 Theorem C20_cast_64_128 : forall x, val128 (mk128 0 x) = x.
 Proof. exact cast_64_to_128. Qed.
 
+(** constructors: MaxValue() is the largest value of the width (well-formed, 2^w - 1, an upper bound of every value),
+    Zero() / ZeroUint is 0, OneUint is 1 (the limb records are those the model's runners return for these operations;
+    Set64 v / From64 v are mk128 0 v / mk256 0 0 0 v: C20_cast_64_128 / C20_cast_64_256) *)
+Theorem C20_max128 : wf128 (mk128 (W - 1) (W - 1)) /\ val128 (mk128 (W - 1) (W - 1)) = W * W - 1.
+Proof. exact max128_val. Qed.
+Theorem C20_max256 : wf256 (mk256 (W - 1) (W - 1) (W - 1) (W - 1)) /\ val256 (mk256 (W - 1) (W - 1) (W - 1) (W - 1)) = W4 - 1.
+Proof. exact max256_val. Qed.
+Theorem C20_max128_is_max : forall u, wf128 u -> val128 u <= val128 (mk128 (W - 1) (W - 1)).
+Proof. exact max128_is_max. Qed.
+Theorem C20_max256_is_max : forall u, wf256 u -> val256 u <= val256 (mk256 (W - 1) (W - 1) (W - 1) (W - 1)).
+Proof. exact max256_is_max. Qed.
+Theorem C20_zero_one : val128 (mk128 0 0) = 0 /\ val256 (mk256 0 0 0 0) = 0 /\ val128 (mk128 0 1) = 1 /\ val256 (mk256 0 0 0 1) = 1.
+Proof. exact (conj zero128_val (conj zero256_val (conj one128_val one256_val))). Qed.
+
 (** the pre-repair code violates the property (witnesses replayed on the implementation by the corpus) *)
 Theorem C20_mul128_orig_refuted :
   exists u v, wf128 u /\ wf128 v /\ h1 v = 0 /\ W * W <= val128 u * val128 v /\ u128_mul_orig u v <> Panic.
@@ -218,3 +232,8 @@ Print Assumptions C20_mul128_orig_refuted.
 Print Assumptions C20_mul256_orig_refuted.
 Print Assumptions C20_shl256_orig_refuted.
 Print Assumptions C20_shr256_orig_refuted.
+Print Assumptions C20_max128.
+Print Assumptions C20_max256.
+Print Assumptions C20_max128_is_max.
+Print Assumptions C20_max256_is_max.
+Print Assumptions C20_zero_one.
